@@ -131,9 +131,104 @@ def compiled_closures(cls):
                         else:
                             src |= _self_attrs_read(a, me)
                 src -= {tg[0].attr}
+                if m.name not in ("__init__", "__post_init__", "__new__") and st in m.node.body and not _read_elsewhere(cls, tg[0].attr, m):
+                    continue  # rebuilt unconditionally by the only method that uses it: not kept across calls
+                src = _expand_methods(cls, src, uses=_USES.setdefault((cls.ident, tg[0].attr), {}))
                 if src and (tg[0].attr, m.ident) not in seen:
                     seen.add((tg[0].attr, m.ident))
                     out.append((tg[0].attr, src, m, st))
+    return out
+
+
+def _read_elsewhere(cls, attr, m):
+    for c in cls.mro():
+        for o in c.methods.values():
+            if o is m or not o.params or cls.resolve(o.name) is not o:
+                continue
+            if attr in _self_attrs_read(o.node, o.params[0]):
+                return True
+    return False
+
+
+_USES: dict = {}  # (class, compiled attribute) -> {source attribute: names of the methods the compiled callable calls on it}
+
+
+def _expand_methods(cls, names, depth=4, uses=None):
+    """A bound method handed to a compiling wrapper (jit(self.m)) closes over everything m reads from self, directly or
+    through the methods it calls: replace method names by those data attributes."""
+    out, todo, seen = set(), [(n, 0) for n in names], set()
+    while todo:
+        n, d = todo.pop()
+        if n in seen:
+            continue
+        seen.add(n)
+        f = cls.resolve(n)
+        if f is None or not getattr(f, "params", None):
+            out.add(n)
+            continue
+        if "property" in {(x.attr if isinstance(x, ast.Attribute) else getattr(x, "id", None)) for x in f.node.decorator_list}:
+            out.add(n)
+        if d >= depth:
+            continue
+        for a in _self_attrs_read(f.node, f.params[0]):
+            todo.append((a, d + 1))
+        if uses is not None:
+            for c_ in ast.walk(f.node):
+                if isinstance(c_, ast.Call) and isinstance(c_.func, ast.Attribute) and isinstance(c_.func.value, ast.Attribute) \
+                        and isinstance(c_.func.value.value, ast.Name) and c_.func.value.value.id == f.params[0]:
+                    uses.setdefault(c_.func.value.attr, set()).add(c_.func.attr)
+    return out
+
+
+def _reads_transitive(c, name, depth=3):
+    out, todo, seen = set(), [(name, 0)], set()
+    while todo:
+        n, d = todo.pop()
+        if n in seen:
+            continue
+        seen.add(n)
+        f = c.resolve(n)
+        if f is None or not getattr(f, "params", None):
+            out.add(n)
+            continue
+        if d < depth:
+            todo.extend((a, d + 1) for a in _self_attrs_read(f.node, f.params[0]))
+    return out
+
+
+def _interferes(repo, writer_name, reader_names):
+    """True if some class of the package has a method *writer_name* that stores (outside the constructor) an attribute which one of
+    its methods *reader_names* reads, directly or through its own helpers: calling writer on an object changes what reader returns.
+    (`fit` then `inverse` on a transform: yes; `sample_and_log_prob` -- which only advances a key -- then `log_prob` on a flow: no.)"""
+    cache = repo.__dict__.setdefault("_interferes", {})
+    key = (writer_name, frozenset(reader_names))
+    if key not in cache:
+        hit = False
+        for mod in repo.modules.values():
+            for c in mod.classes.values():
+                w = c.resolve(writer_name)
+                if w is None or not w.params or writer_name.startswith("__"):
+                    continue
+                stored = set(_self_stores(w))
+                if not stored:
+                    continue
+                for rn in reader_names:
+                    if rn != writer_name and c.resolve(rn) is not None and stored & _reads_transitive(c, rn):
+                        hit = True
+        cache[key] = hit
+    return cache[key]
+
+
+def _self_object_mutations(repo, f, uses):
+    """{attribute: node} for calls `self.X.m(...)` where m changes what the methods the compiled callable calls on X return."""
+    me = f.params[0] if f.params else None
+    out = {}
+    for n in walk_no_nested(f.node):
+        if isinstance(n, ast.Call) and isinstance(n.func, ast.Attribute) and isinstance(n.func.value, ast.Attribute) \
+                and isinstance(n.func.value.value, ast.Name) and n.func.value.value.id == me:
+            x = n.func.value.attr
+            if x in uses and _interferes(repo, n.func.attr, uses[x]):
+                out.setdefault(x, n)
     return out
 
 
@@ -142,7 +237,11 @@ def findings(repo, classes):
     out = []
     n_caches = 0
     for cls in classes:
-        caches = lazy_caches(cls) + compiled_closures(cls)
+        lazy = lazy_caches(cls)
+        compiled = compiled_closures(cls)
+        # a lazily filled attribute whose value is a compiled closure: `if self.A is None: self.A = jit(self.m)`
+        compiled_attrs = {a for a, _s, _m, _n in compiled}
+        caches = [c_ for c_ in lazy if c_[0] not in compiled_attrs] + compiled
         n_caches += len(caches)
         if not caches:
             continue
@@ -156,6 +255,13 @@ def findings(repo, classes):
                 hit = [x for x in srcs if x in st]
                 if hit and attr not in st:
                     out.append((cls, attr, hit[0], w, st[hit[0]], definer))
+                    continue
+                if attr in compiled_attrs and attr not in st:
+                    # the trace also bakes in the *state* of the objects it closed over: refitting one in place is a reassignment as far as the trace goes
+                    mu = _self_object_mutations(repo, w, _USES.get((cls.ident, attr), {}))
+                    hit = [x for x in srcs if x in mu]
+                    if hit:
+                        out.append((cls, attr, hit[0], w, mu[hit[0]], definer, mu[hit[0]].func.attr))
     return out, n_caches
 
 
@@ -169,7 +275,13 @@ def rule(ctx, rule_name: str, module_prefixes, consequence: str):
     ctx.count(f"{rule_name}:lazy_caches", n_caches)
     if not fs:
         ctx.prove(rule_name, "package", "src/aspire", f"every lazily computed attribute ({n_caches} found in {len(classes)} classes) is reset by each method that reassigns one of its sources")
-    for cls, attr, src, w, node, definer in fs:
+    for cls, attr, src, w, node, definer, *via in fs:
+        if via:
+            ctx.refute(rule_name, f"{cls.ident}.{attr}", loc_of(w, node),
+                       f"{cls.name}.{attr} is a compiled / memoised callable built once (in {definer.name}) over self.{src}, whose state it bakes in, but {w.name}() calls "
+                       f"self.{src}.{via[0]}(), which changes that state, without rebuilding it: after that call the compiled function still computes with the old {src} -- {consequence}",
+                       disc=f"{w.name}|{src}|{via[0]}")
+            continue
         ctx.refute(rule_name, f"{cls.ident}.{attr}", loc_of(w, node),
                    f"{cls.name}.{attr} is computed once from self.{src} (in {definer.name}) and kept, but {w.name}() reassigns self.{src} without resetting it: "
                    f"after that call the cached value describes the old {src} -- {consequence}", disc=f"{w.name}|{src}")
